@@ -47,6 +47,17 @@ def gen_case(seed, tier):
         for f in faults:
             if f['kind'].startswith('status:'):
                 f['after_chunks'] = None
+        # "within the retry budget" is a statement about ONE adapter call, and several requests (and so several of these
+        # faults) can belong to one call: keep the total below the smallest budget (B2: 1 + 2 re-authorisations, S3: 4 tries)
+        limit = 2 if adapter == 'b2' else 3
+        total = 0
+        kept = []
+        for f in faults:
+            f['count'] = min(f['count'], limit - total)
+            if f['count'] > 0:
+                kept.append(f)
+                total += f['count']
+        faults = kept
         from sim import gen as _gen
         tree = _gen.tree_spec(rng, mn=8, mx=64, nfiles=rng.choice([1, 2, 3]), max_size=400, allow_nonutf8=False, min_files=1)
         return {'seed': seed, 'sched_seed': seed, 'kind': 'e2e', 'adapter': adapter, 'op': 'snapshot+restore', 'faults': faults, 'tree': tree,
